@@ -58,10 +58,14 @@ def generate(rng, tier):
             k = min(k, 12)
             us = _uuids(rng, k, ties=False)
             # equal weights cannot be observed through pulls; skip accidental suffix ties
-            cases.append(f"bal {h} {','.join(us)}")
+            # per-mount replication 1-3: with rep > 1 the desired replication exceeds the number of
+            # slots for the lower-ranked half, a regime in which the ranking must still be the same
+            rep = rng.choice([1, 1, 2, 3])
+            sfx = "" if rep == 1 else f" {rep}"
+            cases.append(f"bal {h} {','.join(us)}{sfx}")
             if k > 1:
                 i = rng.randrange(k)
-                cases.append(f"bal {h} {','.join(us[:i] + us[i + 1:])}")
+                cases.append(f"bal {h} {','.join(us[:i] + us[i + 1:])}{sfx}")
         elif op == "write":
             us = _uuids(rng, k, ties=True)
             cases.append(f"write {h} " + ",".join(f"{u}:{rng.choice('011')}" for u in us))
@@ -69,13 +73,16 @@ def generate(rng, tier):
             us = _uuids(rng, min(k, 8), ties=True)
             gws = _uuids(rng, rng.randint(0, 3), ties=False)
             gws = [g for g in gws if len(g) == 27]
+            # services loaded through discovery are gateway roots as well: let some local services
+            # (27-character uuids) also be known gateways, with the same root
+            local_gw = [u for u in us if len(u) == 27 and rng.random() < 0.5]
             hints = []
             for _ in range(rng.randint(0, 4)):
                 r = rng.random()
                 if r < 0.3:
                     hints.append("K@" + "".join(rng.choice(ALNUM) for _ in range(5)))
-                elif r < 0.5 and gws:
-                    hints.append("K@" + rng.choice(gws))
+                elif r < 0.5 and (gws or local_gw):
+                    hints.append("K@" + rng.choice(gws + local_gw))
                 elif r < 0.65:
                     hints.append("K@" + "".join(rng.choice(ALNUM) for _ in range(5)) + "-bi6l4-" + "".join(rng.choice(ALNUM) for _ in range(15)))
                 elif r < 0.8:
@@ -87,8 +94,22 @@ def generate(rng, tier):
                 parts.insert(rng.randint(1, len(parts)), hn)
             loc = "+".join(parts)
             ls = ",".join(f"{u}=http://l{i}.example" for i, u in enumerate(us)) or "-"
-            gs = ",".join(f"{g}=http://g{i}.example" for i, g in enumerate(gws)) or "-"
-            cases.append(f"roots {loc} {ls} {gs}")
+            gl = [f"{g}=http://g{i}.example" for i, g in enumerate(gws)]
+            gl += [f"{u}=http://l{us.index(u)}.example" for u in local_gw]
+            gs = ",".join(gl) or "-"
+            if rng.random() < 0.5:
+                cases.append(f"roots {loc} {ls} {gs}")
+            else:
+                # a sequence of reads on ONE client: the hinted locator, then 1-3 further locators
+                # (plain and hinted); every answer must be what a fresh client would give
+                locs = [loc]
+                for _ in range(rng.randint(1, 3)):
+                    h2 = _hash(rng)
+                    l2 = h2 + "+" + str(rng.randint(0, 1 << 26))
+                    if hints and rng.random() < 0.4:
+                        l2 += "+" + rng.choice(hints)
+                    locs.append(l2)
+                cases.append(f"rootseq {';'.join(locs)} {ls} {gs}")
         else:
             us = _uuids(rng, k, ties=True)
             cases.append(f"{op} {h} {','.join(us)}")
@@ -104,6 +125,13 @@ def _split(s):
 
 def compare(case, impl, model):
     """impl is one concrete order; model is the allowed set written as tie groups."""
+    if case.startswith("rootseq "):
+        f = case.split(" ")
+        locs = f[1].split(";")
+        ii, mm = impl.split(" / "), model.split(" / ")
+        if len(ii) != len(locs) or len(mm) != len(locs):
+            return False
+        return all(compare(f"roots {l} {f[2]} {f[3]}", a, b) for l, a, b in zip(locs, ii, mm))
     if case.startswith("roots "):
         if ";" not in impl or ";" not in model:
             return impl == model
@@ -133,8 +161,21 @@ def oracle(case, impl):
     """Property text, on implementation output only: a permutation of the service set sorted by
     descending MD5(hash ++ last 15 characters of a 27-character uuid); hints first."""
     f = case.split(" ")
-    if impl.startswith(("panic", "CRASH", "unexpected", "not-nested", "short")):
+    if impl.startswith("not-nested"):
+        return ("keep-balance's wanted slots for desired replication 1..N are not nested in one ranking, so it does "
+                "not rank the servers in the rendezvous order: " + impl[:200])
+    if impl.startswith(("panic", "CRASH", "unexpected", "short")):
         return "driver could not observe an order: " + impl[:200]
+    if f[0] == "rootseq":
+        locs = f[1].split(";")
+        parts = impl.split(" / ")
+        if len(parts) != len(locs):
+            return "malformed rootseq output"
+        for k, (l, a) in enumerate(zip(locs, parts)):
+            why = oracle(f"roots {l} {f[2]} {f[3]}", a)
+            if why:
+                return f"call {k + 1} of {len(locs)} on one client ({l[:40]}...): {why}"
+        return None
     if f[0] == "roots":
         loc, ls, gs = f[1], _split(f[2]), _split(f[3])
         gw = dict(p.split("=", 1) for p in gs)
@@ -171,12 +212,15 @@ def nontrivial_key(case, impl):
     return case if n >= 2 else None
 
 
+
 def describe(cases, impl):
     d = {}
     sizes = {}
     for c in cases:
         f = c.split(" ")
         d[f[0]] = d.get(f[0], 0) + 1
+        if f[0] == "bal" and len(f) == 4:
+            d["bal_rep>1"] = d.get("bal_rep>1", 0) + 1
         n = len(_split(f[2]))
         b = "1" if n == 1 else "2-4" if n <= 4 else "5-16" if n <= 16 else "17-32"
         sizes[b] = sizes.get(b, 0) + 1
@@ -195,11 +239,12 @@ def neighbours(case, rng):
     out = []
     if f[0] in ("order", "read", "bal"):
         us = _split(f[2])
+        sfx = "" if len(f) < 4 else " " + f[3]
         for _ in range(5):
-            out.append(f"{f[0]} {_hash(rng)} {f[2]}")
+            out.append(f"{f[0]} {_hash(rng)} {f[2]}{sfx}")
         if len(us) > 1:
             i = rng.randrange(len(us))
-            out.append(f"{f[0]} {f[1]} {','.join(us[:i] + us[i+1:])}")
+            out.append(f"{f[0]} {f[1]} {','.join(us[:i] + us[i+1:])}{sfx}")
     elif f[0] == "write":
         for _ in range(5):
             out.append(f"write {_hash(rng)} {f[2]}")
